@@ -178,7 +178,10 @@ func init() {
 				"cache-size-zero":               func(p *config.PikeConfig) { p.Caches[0].Size = 0 },
 				"cache-size-negative":           func(p *config.PikeConfig) { p.Caches[0].Size = -1 },
 				"cache-name-empty":              func(p *config.PikeConfig) { p.Caches[0].Name = ""; p.Servers[0].Cache = "" },
-				"cache-name-too-long":           func(p *config.PikeConfig) { p.Caches[0].Name = strings.Repeat("n", 21); p.Servers[0].Cache = p.Caches[0].Name },
+				"cache-name-too-long": func(p *config.PikeConfig) {
+					p.Caches[0].Name = strings.Repeat("n", 21)
+					p.Servers[0].Cache = p.Caches[0].Name
+				},
 				"cache-store-not-url":           func(p *config.PikeConfig) { p.Caches[0].Store = "not a url" },
 				"upstream-addr-scheme":          func(p *config.PikeConfig) { p.Upstreams[0].Servers[0].Addr = "ftp://127.0.0.1:1" },
 				"upstream-addr-empty":           func(p *config.PikeConfig) { p.Upstreams[0].Servers[0].Addr = "" },
